@@ -1,4 +1,5 @@
 import EdVerif.Proofs.PointLayer
+import EdVerif.Proofs.Closing
 /-!
 C06 — `Point.Equal` decides point equality exactly: for valid points in any projective
 representation it returns `1` iff both represent the same affine curve point, else `0`.
@@ -7,8 +8,8 @@ namespace EdVerif.Props
 open EdVerif.Impl EdVerif.Proofs EdVerif.Spec
 
 open Classical in
-theorem C06 (ff : FieldFacts) {P Q : P3} (hP : P.Valid) (hQ : Q.Valid) :
-    Point.equal P Q = if P.toEd = Q.toEd then 1 else 0 := Proofs.C06 ff hP hQ
+theorem C06 {P Q : P3} (hP : P.Valid) (hQ : Q.Valid) :
+    Point.equal P Q = if P.toEd = Q.toEd then 1 else 0 := Proofs.C06 fieldFacts hP hQ
 
 /-- non-vacuity -/
 example : ∃ P : P3, P.Valid ∧ P.toEd = 0 := Proofs.exists_valid
